@@ -52,7 +52,7 @@ type Backend struct {
 
 // Route has a duration and a format-specific tag inside the element.
 type Route struct {
-	PathPrefix string        `dials:"path-prefix" yaml:"path_prefix_yaml"`
+	PathPrefix string        `dials:"path-prefix" yaml:"path_prefix_yaml,omitempty" toml:"path_prefix_toml,omitempty"`
 	RetryAfter time.Duration `dials:"retry_after"`
 }
 
@@ -64,7 +64,7 @@ type Upstream struct {
 		CheckPath string `dials:"check_path"`
 		MaxFails  uint8  `dials:"max-fails"`
 	} `dials:"health_check"`
-	WeightPct float64 `dials:"weight_pct" json:"weightPercent"`
+	WeightPct float64 `dials:"weight_pct" json:"weightPercent,omitempty"`
 }
 
 // Probe is a one-leaf element.
@@ -142,7 +142,8 @@ func uniqueKey(name string, used map[string]bool) string {
 }
 
 // assignTags gives every field a dials tag and, for about a quarter of the
-// fields, one or two format-specific tags with a different name.  All names
+// fields, one or two format-specific tags with a different name, about a third
+// of them with options (`json:"x,omitempty"`, `yaml:"x,flow"`).  All names
 // of sibling fields (over all formats) differ even when case is ignored.
 func assignTags(t *rapid.T, fs []shape.Field) {
 	used := map[string]bool{}
@@ -165,7 +166,17 @@ func assignTags(t *rapid.T, fs []shape.Field) {
 				seen[tn] = true
 				aw := append(append([]string{}, words...), rapid.SampledFrom(c13AltWords).Draw(t, "alt_word"))
 				alt := uniqueKey(encodeKey(aw, rapid.IntRange(0, 5).Draw(t, "alt_style")), used)
-				tg := tn + `:` + strconv.Quote(alt)
+				// options the library accepts when decoding (they only matter
+				// to encoders): omitempty for json/yaml/toml, flow for yaml on
+				// collections and structs
+				opts := []string{"", "", ",omitempty"}
+				if tn == "yaml" && (f.Kind != "leaf" || strings.HasPrefix(f.Type, "[]") || strings.HasPrefix(f.Type, "map[")) {
+					opts = append(opts, ",flow", ",omitempty,flow")
+				}
+				if tn == "cue" {
+					opts = []string{""}
+				}
+				tg := tn + `:` + strconv.Quote(alt+rapid.SampledFrom(opts).Draw(t, "tag_options"))
 				if rapid.Bool().Draw(t, "format_tag_first") {
 					tags = append([]string{tg}, tags...)
 				} else {
@@ -207,7 +218,11 @@ func decoderFor(format, wrap string) dials.Decoder {
 }
 
 func decodeText(format, wrap, text string, pt reflect.Type) (reflect.Value, error) {
-	src := &static.StringSource{Data: text, Decoder: decoderFor(format, wrap)}
+	return decodeWith(decoderFor(format, wrap), text, pt)
+}
+
+func decodeWith(dec dials.Decoder, text string, pt reflect.Type) (reflect.Value, error) {
+	src := &static.StringSource{Data: text, Decoder: dec}
 	return src.Value(context.Background(), dials.NewType(pt))
 }
 
@@ -263,6 +278,23 @@ type C13Case struct {
 	Wrap   string            `json:"wrap"`
 	Texts  map[string]string `json:"texts"`
 	Styles []string          `json:"styles,omitempty"` // how the texts were spelled (labels only)
+	// Decoy: leaves absent from the document whose dials name is nevertheless
+	// a key of the documents of those formats where the field has a name of
+	// its own (informational; the texts are what is decoded).
+	Decoy map[string]uint64 `json:"decoy,omitempty"`
+	// More: further documents for the same type, decoded one after the other
+	// after the first; each is judged on its own.
+	More []C13Doc `json:"more,omitempty"`
+	// Reuse: one Decoder value per format for the whole history (else a
+	// fresh one per document).
+	Reuse bool `json:"reuse_decoder,omitempty"`
+}
+
+// C13Doc is a later document of a history.
+type C13Doc struct {
+	Layer shape.Layer       `json:"layer"`
+	Decoy map[string]uint64 `json:"decoy,omitempty"`
+	Texts map[string]string `json:"texts"`
 }
 
 var noteworthy = map[string]bool{"json_dur_int": true, "cue_dur_int": true, "set_dup": true, "yaml_flow_doc": true, "yaml_strq": true,
@@ -287,7 +319,6 @@ func genShapeData(t *rapid.T, withTextStructSlices bool) (shape.Shape, reflect.T
 	}
 	nodes := shape.Walk(T)
 	d := genData(t, nodes)
-	avoidMinInt64(nodes, d.Layers[0])
 	return s, T, nodes, d
 }
 
@@ -319,6 +350,12 @@ func genData(t *rapid.T, nodes []shape.Node) shape.Data {
 			}
 		}
 	}
+	d.Layers = []shape.Layer{genLayer(t, nodes)}
+	return d
+}
+
+// genLayer draws the keys present in one document.
+func genLayer(t *rapid.T, nodes []shape.Node) shape.Layer {
 	l := shape.Layer{Set: map[string]uint64{}, Present: map[string]bool{}}
 	pct := []int{0, 100, 100, 30, 30, 30, 50, 50, 50, 50, 50, 70, 70, 70, 70, 70, 85, 85, 85, 85}[rapid.IntRange(0, 19).Draw(t, "density")]
 	for _, n := range nodes {
@@ -333,8 +370,30 @@ func genData(t *rapid.T, nodes []shape.Node) shape.Data {
 			}
 		}
 	}
-	d.Layers = []shape.Layer{l}
-	return d
+	avoidMinInt64(nodes, l)
+	return l
+}
+
+// genDecoy picks, among the leaves absent from l whose field has a json, yaml
+// or toml name of its own, about half and gives each a value seed.
+func genDecoy(t *rapid.T, nodes []shape.Node, l shape.Layer) map[string]uint64 {
+	dc := map[string]uint64{}
+	for _, n := range nodes {
+		if n.Class != shape.ClassLeaf || l.Set[n.Path] != 0 {
+			continue
+		}
+		own := false
+		for _, f := range formats {
+			if keyFor(n.SF, f) != n.SF.Tag.Get("dials") {
+				own = true
+			}
+		}
+		if own && rapid.Bool().Draw(t, "decoy") {
+			dc[n.Path] = rapid.Uint64Range(1, 1<<40).Draw(t, "decoy_seed")
+		}
+	}
+	avoidMinInt64(nodes, shape.Layer{Set: dc})
+	return dc
 }
 
 // avoidMinInt64 moves a leaf on to the next seed whose value holds no
@@ -389,13 +448,26 @@ func hasMinInt64(v reflect.Value) bool {
 }
 
 func genC13Agree(t *rapid.T) C13Case {
-	s, T, _, d := genShapeData(t, rapid.IntRange(0, 3).Draw(t, "with_text_struct_slices") == 0)
-	c := C13Case{Shape: s, Data: d, Texts: map[string]string{}}
+	s, T, nodes, d := genShapeData(t, rapid.IntRange(0, 3).Draw(t, "with_text_struct_slices") == 0)
+	c := C13Case{Shape: s, Data: d}
 	c.Wrap = rapid.SampledFrom([]string{"none", "setslice", "setslice", "ez"}).Draw(t, "wrap")
+	c.Reuse = rapid.Bool().Draw(t, "reuse_decoder")
 	notes := map[string]bool{}
 	pk := rapidPick(t, notes)
-	for _, f := range formats {
-		c.Texts[f] = render(f, buildDoc(T, d.Layers[0], f, c.Wrap != "none", pk), pk)
+	texts := func(l shape.Layer, decoy map[string]uint64) map[string]string {
+		m := map[string]string{}
+		for _, f := range formats {
+			m[f] = render(f, buildDoc(T, l, decoy, f, c.Wrap != "none", pk), pk)
+		}
+		return m
+	}
+	c.Decoy = genDecoy(t, nodes, d.Layers[0])
+	c.Texts = texts(d.Layers[0], c.Decoy)
+	// a history: one to three documents for the same type
+	for i := rapid.SampledFrom([]int{0, 1, 1, 2}).Draw(t, "more_documents"); i > 0; i-- {
+		l := genLayer(t, nodes)
+		dc := genDecoy(t, nodes, l)
+		c.More = append(c.More, C13Doc{Layer: l, Decoy: dc, Texts: texts(l, dc)})
 	}
 	c.Styles = shape.SortedKeys(notes)
 	return c
@@ -809,7 +881,7 @@ func genC13Corrupt(t *rapid.T) C13CorruptCase {
 	base := rapidPick(t, nil)
 	trees := map[string]*dnode{}
 	for _, f := range formats {
-		trees[f] = buildDoc(T, l, f, c.Wrap != "none", base)
+		trees[f] = buildDoc(T, l, nil, f, c.Wrap != "none", base)
 	}
 	var fns []*dnode
 	fieldNodes(trees["json"], &fns)
